@@ -347,6 +347,26 @@ pub static M3B_DEF: Def = Def { name: "M3B", utf8: false, decide: no_callbacks, 
 corpus_impl!(M3, str, M3_DEF, |t| match t { M3::XNotA => 1, M3::YWord => 2, M3::X => 3 }, |_e| 0, |_x| (0, true, 0, 0));
 corpus_impl!(M3B, bytes, M3B_DEF, |t| match t { M3B::XNotA => 1, M3B::YWord => 2, M3B::X => 3 }, |_e| 0, |_x| (0, true, 0, 0));
 
+// ---- C12 (round-5 seed): a regex with a non-ASCII literal competing with an explicit priority that lies between
+// 2 * chars and 2 * bytes of the literal: the default priority must not depend on the mode
+#[derive(Logos, Debug, PartialEq, Clone, Copy)]
+pub enum M4 {
+    #[regex("\u{e9}[a-z]")] Lit,
+    #[regex("[\u{e0}-\u{fc}][a-z]", priority = 5)] Class,
+    #[regex("[a-z]")] Low,
+}
+#[derive(Logos, Debug, PartialEq, Clone, Copy)]
+#[logos(utf8 = false)]
+pub enum M4B {
+    #[regex("\u{e9}[a-z]")] Lit,
+    #[regex("[\u{e0}-\u{fc}][a-z]", priority = 5)] Class,
+    #[regex("[a-z]")] Low,
+}
+pub static M4_DEF: Def = Def { name: "M4", utf8: true, decide: no_callbacks, log_callbacks: false, default_err: plain_default, pats: &[] };
+pub static M4B_DEF: Def = Def { name: "M4B", utf8: false, decide: no_callbacks, log_callbacks: false, default_err: plain_default, pats: &[] };
+corpus_impl!(M4, str, M4_DEF, |t| match t { M4::Lit => 1, M4::Class => 2, M4::Low => 3 }, |_e| 0, |_x| (0, true, 0, 0));
+corpus_impl!(M4B, bytes, M4B_DEF, |t| match t { M4B::Lit => 1, M4B::Class => 2, M4B::Low => 3 }, |_e| 0, |_x| (0, true, 0, 0));
+
 // ---- C18: a byte-string subpattern that can match invalid UTF-8, listed before / after `utf8 = false`
 #[derive(Logos, Debug, PartialEq, Clone, Copy)]
 #[logos(utf8 = false, subpattern hi = b"[\x80-\xff]", skip "_")]
